@@ -659,8 +659,23 @@ func (x *fnCtx) evalSpecCall(env *specEnv, e *SExpr) *Val {
 	case "field":
 		name = callee.Op
 		recv = callee.Args[0]
-		// pkg.Func(...) style for spec functions is not used; treat as method-style: f(recv, args...)
-		args = append([]*SExpr{recv}, args...)
+		qualified := false
+		if recv.Kind == "ident" {
+			if _, isName := x.lookupName(env, recv.Op); !isName {
+				// pkg.Func(...): a pure function (of the repository or an extern) by qualified name
+				q := recv.Op + "." + callee.Op
+				for _, con := range x.eng.db.Funcs {
+					if con.Pure && (shortPkg(con.Pkg)+"."+con.Func == q || con.Pkg+"."+con.Func == q) {
+						name = q
+						qualified = true
+					}
+				}
+			}
+		}
+		if !qualified {
+			// method-style: f(recv, args...)
+			args = append([]*SExpr{recv}, args...)
+		}
 	default:
 		x.fail("spec: bad call %s", e.String())
 	}
